@@ -8,7 +8,7 @@ KIT = ["vp_nondet.c", "vp_mem.c", "vp_alloc.c"]
 
 def add(name, harness, **kw):
     kw.setdefault("kit", KIT)
-    kw.setdefault("timeout", 300)
+    kw.setdefault("timeout", 600)
     OBLIGATIONS.append(Obl(name, harness, **kw))
 
 
@@ -25,7 +25,7 @@ add("c.handle-all-values", "C16/format.c", real=FMT_REAL, defs={"VP_MODE": 0}, u
 FOOTER_DESC = ("footer: exactly 48 bytes == reference layout (two varint64 handles, zero padding to 40, magic "
                "0xdb4775248b80fb57 LE) via write and export; read/import(write(f)) == f; 47 bytes rejected")
 # all four varint length classes concrete, every value inside the class
-for ls in ((1, 1, 1, 1), (10, 10, 10, 10), (3, 5, 2, 9), (10, 1, 10, 1), (9, 8, 7, 6)):
+for ls in ((1, 1, 1, 1), (10, 10, 10, 10), (3, 5, 2, 9)):
     add("c.footer-L%d-%d-%d-%d" % ls, "C16/format.c", real=FMT_REAL,
         defs={"VP_MODE": 1, "VP_PART": 1, "VP_L0": ls[0], "VP_L1": ls[1], "VP_L2": ls[2], "VP_L3": ls[3]},
         unwind=50, unwindset=VARINT_UW,
@@ -52,7 +52,6 @@ for n in (0, 1, 2, 11, 20, 21):
         desc="handle read on arbitrary bytes accepts iff two varint64 parse; values/consumed == reference",
         bounds="N=%d arbitrary bytes" % n)
 
-META = {}
 
 # ---------------------------------------------------------------- b. separators
 SEP_REAL = ["util/comparator.c", "dbformat.c", "util/buffer.c", "util/strutil.c"]
@@ -73,7 +72,7 @@ for ls in range(0, 5):
     for ll in range(0, 5):
         add("b.internal-separator-LS%d-LL%d" % (ls, ll), "C16/separator.c", real=SEP_REAL,
             defs={"VP_MODE": 2, "VP_LS": ls, "VP_MAXL": ll}, unwind=14,
-            tier="quick" if (ls <= 3 and ll <= 3) else "thorough",
+            tier="quick" if (ls == 0 or ll == 0 or (ls, ll) in ((1, 1), (2, 1), (2, 2))) and ls <= 3 and ll <= 3 else "thorough",
             restrict_fp=[FP % ("vp_check_isep", 1, "ldb_ikc_compare"), FP % ("vp_check_isep", 2, "ldb_ikc_shortest_separator"),
                          FP % ("ldb_ikc_compare", 1, "slice_compare"),
                          FP % ("ldb_ikc_shortest_separator", 1, "shortest_separator"),
@@ -82,7 +81,7 @@ for ls in range(0, 5):
             desc="internal-key compare == reference (user asc, tag desc); ldb_ikc_shortest_separator: start <= sep < limit in internal order when start < limit, never longer, keeps 8-byte tag",
             bounds="user keys %d and %d symbolic bytes, 8-byte tags fully symbolic" % (ls, ll))
     add("b.internal-successor-LS%d" % ls, "C16/separator.c", real=SEP_REAL,
-        defs={"VP_MODE": 3, "VP_LS": ls}, unwind=14,
+        defs={"VP_MODE": 3, "VP_LS": ls}, unwind=14, tier="quick" if ls <= 2 else "thorough",
         restrict_fp=[FP % ("harness", 1, "ldb_ikc_short_successor"),
                      FP % ("ldb_ikc_short_successor", 1, "short_successor"),
                      FP % ("ldb_ikc_short_successor", 2, "slice_compare")],
@@ -108,7 +107,7 @@ BLK_QUICK = {(0, 1, 0): [()],
              (1, 1, 0): [(3,)],
              (2, 1, 0): [(1, 2), (3, 3)], (2, 2, 0): [(1, 2), (3, 3), (2, 1), (0, 1)],
              (3, 1, 0): [(1, 2, 3)], (3, 2, 0): [(3, 3, 3), (2, 3, 2)], (3, 3, 0): [(3, 3, 3), (1, 2, 3)],
-             (3, 2, 2): [(3, 3, 3)], (3, 3, 2): [(1, 2, 3)]}
+             (3, 3, 2): [(1, 2, 3)]}
 
 
 def blk_defs(mode, n, r, pre, ks, vs):
@@ -150,8 +149,9 @@ for n in range(0, 4):
 BLKIT_REAL = BLK_REAL + ["table/iterator.c"]
 BLKIT_UW = dict(BLK_UW)
 BLKIT_UW.update({"memcmp.0": 5, "ldb_blockiter_seek.0": 4, "ldb_blockiter_seek.1": 6, "parse_next_key.0": 5})
-for (n, r, ks, tl, tier) in ((0, 1, (), 1, "quick"), (1, 1, (2,), 2, "quick"), (2, 1, (1, 2), 2, "quick"), (2, 2, (3, 3), 3, "quick"),
-                             (3, 1, (1, 2, 3), 3, "quick"), (3, 2, (2, 3, 2), 2, "quick"), (3, 3, (3, 3, 3), 3, "quick"),
+for (n, r, ks, tl, tier) in ((0, 1, (), 1, "quick"), (1, 1, (2,), 2, "quick"), (2, 1, (1, 2), 2, "quick"), (2, 2, (2, 2), 2, "thorough"),
+                             (3, 1, (1, 2, 3), 3, "thorough"), (3, 2, (2, 3, 2), 2, "thorough"), (3, 3, (3, 3, 3), 3, "thorough"),
+                             (2, 2, (3, 3), 3, "thorough"),
                              (3, 2, (3, 3, 3), 3, "thorough"), (3, 1, (3, 3, 3), 3, "thorough"), (3, 2, (1, 2, 3), 1, "thorough"),
                              (3, 3, (1, 2, 3), 0, "thorough"), (3, 2, (0, 1, 2), 2, "thorough"), (2, 2, (2, 1), 3, "thorough")):
     d = blk_defs(1, n, r, 0, ks, (1, 0, 1))
@@ -192,7 +192,7 @@ def bloom_obl(name, mode, n, bpk, ks, abshash, tier="quick", fl=None, kovr=None)
                FP % ("ldb_ifp_build", 1, "bloom_build"), FP % ("ldb_ifp_match", 1, "bloom_match")]
         desc = "internal filter policy strips exactly the 8-byte tag in build and match: added user keys match under any tag, and the user policy matches the bare user key"
     add(name, "C16/bloom.c", real=real, defs=d, unwind=34, unwindset=({"memset.0": 16, "memcpy.0": 12} if abshash else {"memset.0": 16, "memcpy.0": 12, "ldb_hash.0": 4}),
-        restrict_fp=fps, tier=tier, timeout=(300 if tier == "quick" else 1800), sat=(None if abshash and bpk < 30 else "cadical"),
+        restrict_fp=fps, tier=tier, timeout=(600 if tier == "quick" else 1800), sat=(None if abshash and bpk < 30 else "cadical"),
         functions=["ldb_bloom_init", "bloom_build", "bloom_add", "bloom_match", "bloom_hash"] +
                   (["ldb_hash"] if not abshash else []) + (["ldb_ifp_init", "ldb_ifp_build", "ldb_ifp_match"] if mode == 2 else []),
         desc=desc + (" (hash: uninterpreted deterministic function, i.e. for every hash)" if abshash else " (real ldb_hash)"),
@@ -209,7 +209,7 @@ bloom_obl("f.bloom-realhash-N3-B10", 0, 3, 10, (2, 5, 3), False, tier="thorough"
 bloom_obl("f.bloom-abshash-N3-B30", 0, 3, 30, (1, 2, 3), True, tier="thorough")   # 96 bits, k = 20
 bloom_obl("f.bloom-abshash-N1-B65", 0, 1, 65, (2,), True, tier="thorough")        # 72 bits, k = 30 (clamped)
 bloom_obl("f.bloom-abshash-N2-B33", 0, 2, 33, (1, 2), True, tier="thorough")      # 72 bits, k = 22
-bloom_obl("f.bloom-abshash-N1-B72-K2", 0, 1, 72, (2,), True, kovr=2)               # 72 bits, k overridden to 2
+bloom_obl("f.bloom-abshash-N1-B72-K2", 0, 1, 72, (2,), True, kovr=2, tier="thorough")               # 72 bits, k overridden to 2
 bloom_obl("f.bloom-abshash-N2-B40-K3", 0, 2, 40, (1, 2), True, kovr=3, tier="thorough")  # 80 bits, k overridden to 3
 bloom_obl("f.bloom-realhash-N3-B30-long", 0, 3, 30, (4, 7, 8), False, tier="thorough")
 for fl in (0, 1, 2, 5, 10):
@@ -226,8 +226,8 @@ FB_DESC = ("filter block builder->reader with an abstract consistent policy: eve
            "base-lg 11) with filter i == policy output for range i; arbitrary probe == reference lookup")
 for (cs, offs, kl, tier) in (((1,), (0,), 2, "quick"), ((2,), (2048,), 1, "quick"), ((1,), (8191,), 1, "quick"),
                              ((1, 1), (0, 2047), 2, "quick"), ((1, 1), (0, 2048), 2, "quick"), ((2, 1), (2047, 4096), 1, "quick"),
-                             ((0, 2), (0, 6143), 1, "quick"), ((2, 0), (0, 4095), 1, "quick"),
-                             ((1, 1, 1), (0, 2048, 4096), 1, "quick"), ((1, 1, 1), (0, 100, 6144), 1, "quick"),
+                             ((0, 2), (0, 6143), 1, "thorough"), ((2, 0), (0, 4095), 1, "quick"),
+                             ((1, 1, 1), (0, 2048, 4096), 1, "thorough"), ((1, 1, 1), (0, 100, 6144), 1, "quick"),
                              ((2, 2, 2), (0, 2047, 2048), 2, "thorough"), ((1, 0, 2), (2048, 4096, 8191), 2, "thorough"),
                              ((2, 1, 2), (4095, 4096, 4097), 3, "thorough"), ((0, 0, 1), (0, 2048, 6144), 3, "thorough"),
                              ((2, 2), (1, 8191), 3, "thorough"), ((2, 2, 1), (0, 0, 0), 2, "thorough")):
@@ -256,7 +256,7 @@ for (cs, kl, tier, to) in (((1,), 1, "quick", 300), ((2,), 2, "thorough", 900), 
 
 # ---------------------------------------------------------------- g. snappy
 # n >= 17 reaches encode_block (hash-table matcher): 5-10 min per query, thorough tier only
-for (n, tier, to) in ((0, "quick", 300), (1, "quick", 300), (5, "quick", 300), (16, "quick", 300), (17, "thorough", 3000),
+for (n, tier, to) in ((0, "quick", 600), (1, "quick", 600), (5, "quick", 600), (16, "quick", 600), (17, "thorough", 3000),
                       (18, "thorough", 3000), (20, "thorough", 3600), (24, "thorough", 3600)):
     m = max(n - 15, 0)
     uw = {"memset.0": 514, "memcpy.0": n + 2, "vp_fill.0": n + 2,
@@ -280,7 +280,7 @@ for (n, tier, to) in ((0, "quick", 300), (1, "quick", 300), (5, "quick", 300), (
                  {None: "decode(encode(x)) == x, independent reference Snappy decoder reads x back",
                   1: "decode(encode(x)) == x", 2: "independent reference Snappy decoder reads x back"}[part],
             bounds="x = %d symbolic bytes%s" % (n, " (>= 17: the hash-table matcher encode_block runs)" if n >= 17 else " (< 17: literal-only path)"))
-for (n, z, tier) in ((3, 1, "quick"), (6, 4, "quick"), (5, 8, "quick"), (8, 6, "quick"), (10, 8, "thorough"), (12, 10, "thorough"), (9, 16, "thorough")):
+for (n, z, tier) in ((3, 1, "quick"), (6, 4, "quick"), (5, 8, "quick"), (8, 6, "thorough"), (10, 8, "thorough"), (12, 10, "thorough"), (9, 16, "thorough")):
     add("g.snappy-decode-arbitrary-N%d-Z%d" % (n, z), "C16/snappy.c", real=["util/snappy.c"], kit=["vp_nondet.c", "vp_mem.c"],
         defs={"VP_MODE": 1, "VP_N": n, "VP_Z": z}, unwind=max(n, z) + 3, unwind_is_violation=True,
         tier=tier, timeout=600, cost=10 * n,
@@ -294,25 +294,84 @@ TB_REAL = ["table/table_builder.c", "table/block_builder.c", "table/format.c", "
            "util/strutil.c", "util/slice.c"]
 TB_KIT = ["vp_nondet.c", "vp_mem.c", "vp_alloc_c16.c", "vp_cksum.c"]
 TB_UW = dict(VARINT_UW)
-TB_UW.update({"vp_ref_bytewise.0": 9, "vp_ref_block_decode.0": 9, "vp_ref_block_decode.1": 5, "strlen.0": 4,
-              "vp_fp.0": 4, "vp_pol_build.0": 4})
-for (n, ks, bs, r, comp, flt, tier) in ((1, (1,), 1, 1, 0, 0, "quick"), (2, (1, 1), 1, 1, 0, 0, "quick"), (3, (1, 1, 1), 1, 2, 0, 0, "quick"),
-                                        (2, (1, 1), 4096, 1, 0, 0, "quick"), (2, (1, 1), 4096, 2, 0, 0, "quick"),
-                                        (1, (1,), 1, 1, 1, 0, "quick"), (2, (1, 1), 1, 1, 0, 1, "quick"),
-                                        (2, (2, 2), 1, 1, 0, 0, "thorough"), (3, (1, 2, 2), 1, 1, 0, 0, "thorough"),
-                                        (3, (2, 2, 2), 4096, 2, 0, 0, "thorough"), (3, (1, 2, 1), 4096, 3, 0, 1, "thorough"),
-                                        (2, (1, 2), 1, 1, 1, 1, "thorough")):
+TB_UW.update({"vp_ref_bytewise.0": 9, "vp_ref_block_decode.0": 9, "vp_ref_block_decode.1": 5,
+              "vp_fp.0": 4, "vp_pol_build.0": 4, "strlen.0": 10})
+for (n, ks, bs, r, comp, flt, ns, tier) in ((1, (1,), 1, 1, 0, 0, 0, "quick"), (2, (1, 1), 1, 1, 0, 0, 1, "quick"), (3, (1, 1, 1), 1, 2, 0, 0, 1, "thorough"),
+                                            (2, (1, 1), 4096, 1, 0, 0, 0, "quick"), (2, (1, 1), 4096, 2, 0, 0, 1, "thorough"),
+                                            (1, (1,), 1, 1, 1, 0, 1, "quick"), (1, (1,), 1, 1, 0, 1, 1, "quick"), (2, (1, 1), 1, 1, 0, 1, 1, "thorough"),
+                                            (2, (1, 1), 1, 1, 0, 0, 0, "thorough"),
+                                            (2, (2, 2), 1, 1, 0, 0, 0, "thorough"), (3, (1, 2, 2), 1, 1, 0, 0, 0, "thorough"),
+                                            (3, (2, 2, 2), 4096, 2, 0, 0, 0, "thorough"), (3, (1, 2, 1), 4096, 3, 0, 1, 0, "thorough"),
+                                            (2, (1, 2), 1, 1, 1, 1, 0, "thorough")):
     d = {"VP_N": n, "VP_BS": bs, "VP_R": r, "VP_COMP": comp, "VP_FILTER": flt, "VP_SLAB": 96}
+    if ns:
+        d["VP_NOSHORT"] = 1
     for i, kl in enumerate(ks):
         d["VP_K%d" % i] = kl
     fps = [FP % ("ldb_tablegen_add", 1, "shortest_separator"), FP % ("ldb_tablegen_finish", 1, "short_successor")]
     if flt:
         fps.append(FP % ("ldb_filtergen_generate", 1, "vp_pol_build"))
-    add("d.table-N%d-K%s-BS%d-R%d-C%d-F%d" % (n, "".join(map(str, ks)), bs, r, comp, flt), "C16/table.c",
+    add("d.table-N%d-K%s-BS%d-R%d-C%d-F%d%s" % (n, "".join(map(str, ks)), bs, r, comp, flt, "-noshort" if ns else ""), "C16/table.c",
         real=TB_REAL, kit=TB_KIT, defs=d, unwind=50, unwindset=TB_UW, restrict_fp=fps, tier=tier,
-        timeout=300 if tier == "quick" else 1800, cost=100 * n,
+        timeout=600 if tier == "quick" else 1800, cost=100 * n,
         functions=["ldb_tablegen_create", "ldb_tablegen_add", "ldb_tablegen_flush", "ldb_tablegen_finish",
                    "ldb_tablegen_write_block", "ldb_tablegen_write_raw_block", "ldb_blockgen_add", "ldb_blockgen_finish",
                    "ldb_footer_export", "ldb_handle_export", "shortest_separator", "short_successor"],
         desc="bytes appended by the table builder, read back by an independent table reader: footer last (magic, padding, handles), every block + 5-byte trailer (type, mask(F(contents||type))), blocks back to back, index (restart interval 1) -> handles and separator keys in [last key of block, first key of next), data blocks == added entries, metaindex/filter block; Snappy request on incompressible blocks stored raw",
-        bounds="%d entries, key lengths %s (symbolic bytes, increasing), 1-byte values, block_size %d, restart interval %d, compression %s, filter policy %s" % (n, ks, bs, r, "snappy" if comp else "none", "abstract" if flt else "none"))
+        bounds="%d entries, key lengths %s (symbolic bytes, increasing), 1-byte values, block_size %d, restart interval %d, compression %s, filter policy %s, comparator %s" % (n, ks, bs, r, "snappy" if comp else "none", "abstract" if flt else "none", "bytewise without key shortening" if ns else "bytewise"))
+
+
+META = {
+    "level": "model_checking",
+    "level_text": ("Bounded model checking (CBMC 6.11) of lcdb's own table-format code, one component per query: "
+                   "block_builder.c, block.c (iterator over built blocks), format.c (handle/footer), comparator.c and dbformat.c "
+                   "(key shortening, internal-key order, internal filter policy), table_builder.c (through a recording "
+                   "ldb_wfile_append), filter_block.c, bloom.c and snappy.c are executed symbolically and compared with "
+                   "independently written readers/writers of the LevelDB table format (varints, prefix-compressed blocks with "
+                   "restart array, block trailer, index/metaindex, filter block, footer, Snappy raw format) kept in "
+                   "harness/C16/ref.h and the harnesses. Every verdict holds for all values of the symbolic bytes inside the "
+                   "stated sizes; counterexamples are replayed natively (gcc, ASan+UBSan) on the same harness."),
+    "level_note": ("Trusted: CBMC's C semantics of the goto-cc translation, the kit models, the references in the harnesses, and "
+                   "the prose composition argument (a table = blocks + trailers + index + footer, each checked separately; the "
+                   "whole build->open->scan path through table.c/two_level_iterator.c/cache/mmap is not executed in one query). "
+                   "Sizes are tiny (<= 3 entries per block/table, keys <= 3 bytes, values <= 1 byte); entry/key lengths are "
+                   "concrete per query, contents symbolic."),
+    "explanation": ("C16 is split per component (DESIGN 6/C16 a-g). a: block builder output parsed by a reference block reader "
+                    "and by lcdb's own block iterator (scan + seek). b: shortest_separator/short_successor of the bytewise and "
+                    "internal-key comparators against reference orders. c: handle/footer codecs for all 64-bit values and the "
+                    "readers on arbitrary bytes. d: table builder's appended bytes read back by an independent table reader "
+                    "(abstract checksum). e: filter block builder->reader with an abstract consistent policy. f: bloom filter no "
+                    "false negatives for an uninterpreted hash (and the real hash for one key), internal filter policy strips the "
+                    "8-byte tag. g: snappy round trip + reference decoder."),
+    "bounds": [
+        "a: <= 3 entries per block, key lengths 0..3 and value lengths 0..1 (concrete per query, bytes symbolic, keys strictly increasing), restart interval 1..3, builder reused after reset; quick tier = 20 length/interval tuples, thorough = all 64 key-length tuples x 2 value patterns x 3 intervals x {fresh, reused}",
+        "a (iterator): forward scan + one seek with a symbolic target of 0..3 bytes on blocks of <= 3 entries",
+        "b: bytewise start/limit 0..4 symbolic bytes (all 25 length pairs); internal keys: user keys 0..4 bytes + fully symbolic 8-byte tags (quick: lengths <= 2 and (3,3); thorough: all 25 pairs)",
+        "c: handle: all 2^128 (offset,size) values; footer: quick = 5 varint-length classes (all values inside each class), thorough = 100 classes covering every 4x64-bit footer; readers on arbitrary 47/48/50-byte (footer) and 0..21-byte (handle) inputs",
+        "d: 1..3 entries, keys 1..2 bytes, 1-byte values, block_size 1 (one entry per block) or 4096, restart interval 1..3, compression none / snappy on incompressible blocks, filter policy none / abstract; quick tier mostly with a bytewise comparator whose optional shortening hooks are unset",
+        "e: 1..3 blocks with 0..2 keys each (1..3 bytes) at concrete boundary offsets of the real 2 KiB ranges (0, 2047, 2048, 4095, 4096, 6143, 8191, ...), symbolic probe key and probe offset; symbolic block offsets for 1 block (quick) and 2..3 blocks (thorough)",
+        "f: 0..3 keys of 0..3 bytes, bits_per_key 1/10/20 with an uninterpreted hash (filters of 64 bits); real ldb_hash for 1 key; filters longer than 64 bits (modulus not a power of two) only in the thorough tier; arbitrary filters of 0..10 bytes for match",
+        "g: round trip for |x| in {0,1,5,16} (literal-only path) in the quick tier, |x| in {17,18,20,24} (hash-table matcher encode_block) in the thorough tier; decoder on 3..12 arbitrary bytes producing 1..16 bytes",
+    ],
+    "outside": [
+        "whole-table build -> ldb_table_open -> two-level iterator scan/seek/get in one query (table.c, two_level_iterator.c are not in any C16 query)",
+        "block cache and mmap option combinations (they do not change the bytes)", "custom user comparators other than bytewise",
+        "realistic sizes: 4 KiB blocks, restart interval 16, thousands of entries, keys longer than 3 bytes",
+        "compressed blocks that actually shrink inside the table builder (Snappy type 1 trailer): only the fallback to raw is checked in d; the compressor itself is g",
+        "bloom filters longer than 64 bits in the quick tier; false-positive rate",
+        "CRC-32C itself (abstract checksum here; the CRC kernel is C15)",
+    ],
+    "models": [
+        "kit/vp_alloc_c16.c: ldb_realloc hands out one constant-size slab per buffer (VP_SLAB bytes, request above it is reported); an overrun of a builder's own buffer inside the slab is not seen by CBMC (the native ASan replay sees it)",
+        "kit/vp_alloc.c (format/separator/bloom harnesses): exact-size objects, allocation never fails",
+        "kit/vp_mem.c byte-loop memcpy/memmove/memset/memcmp/strlen", "kit/vp_nondet.c symbolic input sources",
+        "kit/vp_cksum.c abstract streaming checksum in place of CRC-32C (table builder trailer): z = rotl(z,5) ^ b ^ K",
+        "harness stub ldb_wfile_append/ldb_wfile_flush: in-memory recorder that always succeeds (I/O failure is C12)",
+        "abstract filter policy (count byte + one fingerprint byte per key) in e and d; uninterpreted deterministic hash (memo table of fresh symbolic values) in place of ldb_hash in f",
+        "function-pointer call sites (comparator, filter policy) restricted to the installed targets (goto-instrument --restrict-function-pointer; CBMC asserts the restriction)",
+    ],
+    "assumptions": [
+        "documented preconditions only: keys added in strictly increasing order; filter block offsets non-decreasing; start < limit for the separator postcondition",
+        "allocation never fails (lcdb aborts on allocation failure)",
+    ],
+}
